@@ -103,6 +103,17 @@ unsafe impl Hal for SimHal {
                     );
                 }
             }
+            let pins: Vec<(u64, u64, &'static str)> = w.hal.pinned.iter().map(|(a, (l, y))| (*a, *l, *y)).collect();
+            for (a, l, why) in pins {
+                if a < paddr + len && paddr < a + l && w.hal.pin_check {
+                    w.violation(
+                        "pinned-dma-freed",
+                        "dma_dealloc",
+                        format!("dma_dealloc(paddr={paddr:#x}, pages={pages}) releases memory the device still uses as {why} ({a:#x}+{l}) and the device was not reset"),
+                    );
+                    w.hal.pinned.remove(&a);
+                }
+            }
             let r = w.hal.dma.remove(&paddr).unwrap();
             if w.hal.retired_dma.len() < 4096 {
                 w.hal.retired_dma.push((paddr, len));
